@@ -46,6 +46,7 @@ fn max_bytes(p: &PData) -> usize {
 pub fn gen_case(t: &mut Tape) -> Case {
     let mut feat = Feat::core();
     feat.boundary_args = true;
+    feat.withdrawals = true;
     feat.mint = true;
     feat.validity = false;
     feat.metadata = false;
@@ -85,6 +86,16 @@ pub fn gen_case(t: &mut Tape) -> Case {
         }
         g.prog.types.push(GType { name: "Wide".into(), record: false, cases });
     });
+    // a withdrawal's amount must be something the analyzer types as Int (env values, locals and input fields have
+    // no type there and are refused with InvalidTargetType): the amounts become literals - the redeemers are the
+    // point of having withdrawals here
+    for tx in case.prog.txs.iter_mut() {
+        for (k, d) in tx.cardano.iter_mut().enumerate() {
+            if let GDirective::Withdrawal { amount, .. } = d {
+                *amount = GExpr::Int(k as i64);
+            }
+        }
+    }
     // force datums / redeemers to construct cases of the wide type with chosen indices
     let wide = case.prog.types.iter().position(|t| t.name == "Wide").unwrap();
     let _ = wide;
